@@ -416,6 +416,14 @@ def line_sf(zone1, east1, north1, zone2, east2, north2,
         zone2 = stn2_zone1[1]
         east2 = stn2_zone1[2]
         north2 = stn2_zone1[3]
+        if stn2_zone1[0].lower() != hemisphere.lower():
+            # Station 2 on the equator: geo2grid labels it with the other
+            # hemisphere, keep its northing in the convention of the line
+            if hemisphere.lower() == 'south':
+                north2 = min(north2 + projection.falsenorth,
+                             float(projection.falsenorth))
+            else:
+                north2 = max(north2 - projection.falsenorth, 0.0)
 
     # Comute easting distances from Central Meridian
     eastofcm1 = east1 - projection.falseeast
